@@ -3,3 +3,5 @@ import Stingray.Model.Recfm
 import Stingray.Driver.C05
 import Stingray.Model.Clean
 import Stingray.Driver.C17
+import Stingray.Model.Convert
+import Stingray.Driver.C16
